@@ -500,6 +500,14 @@ func (b *BlockList) persist(s blockSnapshot) {
 		return
 	}
 
+	// On a fresh install nothing has created the directory yet: the
+	// background refresh does so only a second after start-up, and an
+	// API call before that would otherwise never reach disk.
+	if err := os.MkdirAll(b.cfg.BlockListDir, 0750); err != nil {
+		zlog.Warn("Blocklist persist failed: create directory", "dir", b.cfg.BlockListDir, "error", err.Error())
+		return
+	}
+
 	path := filepath.Join(b.cfg.BlockListDir, "local")
 	tmp, err := os.CreateTemp(b.cfg.BlockListDir, "local.tmp.*")
 	if err != nil {
